@@ -164,6 +164,29 @@ def eval_cases(d, files, jobs=16):
     with ThreadPoolExecutor(max_workers=jobs) as ex:
         return list(ex.map(eval_case_file, [(d, f) for f in files]))
 
+def thorough_extras(c, cfg):
+    """thorough tier: re-check the property's compiled theorems and everything they depend on
+    with the independent checker coqchk and compare the axioms it reports with the whitelist."""
+    mod = "DV." + cfg["props"][:-2].replace("/", ".")
+    with Lock("coq"):
+        rc, out = sh(["coqchk", "-silent", "-o", "-R", ".", "DV", mod], timeout=5400, cwd=COQ)
+    axioms = []
+    m = re.search(r"\* Axioms:(.*?)\n\s*\n\* Constants", out, re.S)
+    if m:
+        axioms = [a.strip() for a in m.group(1).splitlines() if a.strip() and a.strip() != "<none>"]
+    allowed = set(cfg.get("axioms", []))
+    short = lambda a: a.replace("Coq.Reals.", "").replace("Coq.Logic.", "")
+    bad = [a for a in axioms if short(a) not in allowed and a not in allowed]
+    unsafe = re.findall(r"relying on (?:type-in-type|unsafe \(co\)fixpoints): (?!<none>)(.*)", out) + \
+             re.findall(r"positivity is assumed: (?!<none>)(.*)", out)
+    ok = rc == 0 and not bad and not unsafe
+    c.oblige("P: coqchk -silent -o %s (independent re-check of the .vo files; axioms: %s)" % (mod, ", ".join(axioms) or "none"),
+             ok, out[-1500:] if not ok else "")
+    if not ok:
+        c.breaks.append({"kind": "P", "name": "coqchk " + mod, "detail": out[-3000:]})
+    c.cov["coqchk_axioms"] = axioms
+
+
 def known_findings():
     path = os.path.join(VERIF, "known_findings.txt")
     res = []
